@@ -112,6 +112,14 @@ def tq(name, ret, consts=(), **named):
     return uf(uname, ret, *flat)
 
 
+def allclose(a, b, rtol, atol):
+    return uf("np.allclose", B, a, b, rtol, atol)
+
+
+def dag(a):
+    return uf("transpose", Arr, uf("conj", Arr, a))
+
+
 def sub(a, b):
     return uf("sub", Arr, a, b)
 
@@ -191,5 +199,27 @@ CONTRACTS = {
     "is_quantum_channel": ("toqito/channel_props/is_quantum_channel.py", [("phi", "arr"), ("rtol", "real"), ("atol", "real")], ["not isinstance(phi, list)"],
                            lambda e: z3.And(tq("is_completely_positive", B, phi=e["phi"], rtol=e["rtol"], atol=e["atol"]), tq("is_trace_preserving", B, phi=e["phi"], rtol=e["rtol"], atol=e["atol"])),
                            "is_quantum_channel(J) == completely positive and trace preserving, tolerances passed on by name"),
+    # matrix predicates: the defining equation compared with np.allclose, tolerances reaching rtol / atol by name
+    "is_hermitian": ("toqito/matrix_props/is_hermitian.py", [("mat", "arr"), ("rtol", "real"), ("atol", "real")], ["is_square(mat)"],
+                     lambda e: allclose(e["mat"], dag(e["mat"]), e["rtol"], e["atol"]), "is_hermitian(X, rtol, atol) == allclose(X, X^dagger, rtol=rtol, atol=atol) for square X"),
+    "is_symmetric": ("toqito/matrix_props/is_symmetric.py", [("mat", "arr"), ("rtol", "real"), ("atol", "real")], ["is_square(mat)"],
+                     lambda e: allclose(e["mat"], uf("transpose", Arr, e["mat"]), e["rtol"], e["atol"]), "is_symmetric(X) == allclose(X, X^T, rtol, atol)"),
+    "is_idempotent": ("toqito/matrix_props/is_idempotent.py", [("mat", "arr"), ("rtol", "real"), ("atol", "real")], ["is_square(mat)"],
+                      lambda e: allclose(e["mat"], mm(e["mat"], e["mat"]), e["rtol"], e["atol"]), "is_idempotent(X) == allclose(X, X X, rtol, atol)"),
+    "is_identity": ("toqito/matrix_props/is_identity.py", [("mat", "arr"), ("rtol", "real"), ("atol", "real")], ["is_square(mat)"],
+                    lambda e: allclose(e["mat"], uf("np.eye", Arr, uf("len", R, e["mat"])), e["rtol"], e["atol"]), "is_identity(X) == allclose(X, I, rtol, atol)"),
+    "is_normal": ("toqito/matrix_props/is_normal.py", [("mat", "arr"), ("rtol", "real"), ("atol", "real")], ["is_square(mat)"],
+                  lambda e: allclose(mm(e["mat"], dag(e["mat"])), mm(dag(e["mat"]), e["mat"]), e["rtol"], e["atol"]), "is_normal(X) == allclose(X X^dagger, X^dagger X, rtol, atol)"),
+    "is_projection": ("toqito/matrix_props/is_projection.py", [("mat", "arr"), ("rtol", "real"), ("atol", "real")], ["is_square(mat)"],
+                      lambda e: allclose(uf("np.linalg.matrix_power[2]", Arr, e["mat"]), e["mat"], e["rtol"], e["atol"]), "is_projection(X) == allclose(X^2, X, rtol, atol) (as implemented and pinned by the tests: idempotence)"),
+    "is_unitary": ("toqito/matrix_props/is_unitary.py", [("mat", "arr"), ("rtol", "real"), ("atol", "real")], ["is_square(mat)"],
+                   lambda e: z3.And(allclose(mm(dag(e["mat"]), e["mat"]), uf("np.eye", Arr, uf("len", R, e["mat"])), e["rtol"], e["atol"]), allclose(mm(e["mat"], dag(e["mat"])), uf("np.eye", Arr, uf("len", R, e["mat"])), e["rtol"], e["atol"])),
+                   "is_unitary(U) == allclose(U^dagger U, I) and allclose(U U^dagger, I), tolerances by name"),
+    "is_anti_hermitian": ("toqito/matrix_props/is_anti_hermitian.py", [("mat", "arr"), ("rtol", "real"), ("atol", "real")], [],
+                          lambda e: tq("is_hermitian", B, mat=uf("mul", Arr, e["mat"], uf("complex-constant[1j]", R)), rtol=e["rtol"], atol=e["atol"]), "is_anti_hermitian(X) == is_hermitian(i X, rtol=rtol, atol=atol)"),
+    "is_commuting": ("toqito/matrix_props/is_commuting.py", [("mat_1", "arr"), ("mat_2", "arr")], [],
+                     lambda e: allclose(sub(mm(e["mat_1"], e["mat_2"]), mm(e["mat_2"], e["mat_1"])), z3.RealVal(0), z3.RealVal("1e-05"), z3.RealVal("1e-08")), "is_commuting(A, B) == allclose(A B - B A, 0) with numpy's default tolerances"),
+    "is_density": ("toqito/matrix_props/is_density.py", [("mat", "arr")], [],
+                   lambda e: z3.And(tq("is_positive_semidefinite", B, mat=e["mat"]), uf("np.isclose", B, tr(e["mat"]), z3.RealVal(1), z3.RealVal("1e-05"), z3.RealVal("1e-08"))), "is_density(X) == positive semidefinite and isclose(Tr X, 1)"),
     "purity": ("toqito/state_props/purity.py", [("rho", "arr")], ["is_density(rho)"], lambda e: uf("np.real", R, tr(uf("np.linalg.matrix_power[2]", Arr, e["rho"]))), "purity == Re Tr(rho^2)"),
 }
